@@ -299,7 +299,7 @@ def pipeline_trees(res, seed, n_progs, names):
       src, _ = c04_progs.gen_program(r, 1)
       del captured[:]
       try:
-        io.generate_pyi(src, config.Options.create("prog.py", python_version=(3, 12), module_name="prog"))
+        io.generate_pyi(src, config.Options.create("prog.py", python_version=(3, 12), module_name="prog", typeshed=False))
       except utils.UsageError:
         continue
       except Exception:  # pylint: disable=broad-except
